@@ -312,11 +312,12 @@ pub fn gen_model(rng: &mut Rng, cfg: &GenCfg) -> Built {
                 name: format!("loads{}", i),
                 area_per_person: rng.dec(5.0, 40.0, 1) as f32,
                 people_schedule: if rng.chance(0.85) { Some(schedules.year[rng.usize(ny_)].id) } else { None },
-                people_sensible: rng.dec(0.0, 12.0, 2) as f32,
+                // a load of exactly 0 (a store room without equipment) is common and shares its schedules with the others
+                people_sensible: if rng.chance(0.15) { 0.0 } else { rng.dec(0.0, 12.0, 2) as f32 },
                 people_latent: rng.dec(0.0, 8.0, 2) as f32,
-                equipment: rng.dec(0.0, 15.0, 2) as f32,
+                equipment: if rng.chance(0.2) { 0.0 } else { rng.dec(0.0, 15.0, 2) as f32 },
                 equipment_schedule: if rng.chance(0.85) { Some(schedules.year[rng.usize(ny_)].id) } else { None },
-                lighting: rng.dec(0.0, 15.0, 2) as f32,
+                lighting: if rng.chance(0.2) { 0.0 } else { rng.dec(0.0, 15.0, 2) as f32 },
                 lighting_schedule: if rng.chance(0.85) { Some(schedules.year[rng.usize(ny_)].id) } else { None },
             });
         }
